@@ -186,6 +186,34 @@ def ambiguous_site_enzymes() -> List[str]:
     return out
 
 
+def inside_cut_enzymes() -> List[str]:
+    """Enzymes that cut *inside* their (ACGT) recognition site, which the
+    library also accepts as cutters (5' overhang, non-palindromic, single
+    cut).  Not useful for Golden Gate and outside the quantifier of the
+    geometry rules; used only for the strand-symmetry obligation."""
+    import Bio.Restriction as R
+
+    out = []
+    for e in sorted(R.AllEnzymes, key=str):
+        try:
+            site = e.site
+            if not site or set(site) - set("ACGT"):
+                continue
+            if e.is_blunt() or e.is_unknown() or not e.is_5overhang() or e.is_palindromic():
+                continue
+            if getattr(e, "scd5", None) is not None or getattr(e, "scd3", None) is not None:
+                continue
+            if e.fst5 is None or not (0 < e.fst5 < len(site)):
+                continue
+            el = e.elucidate()
+            if el.count("^") != 1 or el.count("_") != 1 or el.index("^") > el.index("_") or set(el) - set("ACGTN^_"):
+                continue
+        except Exception:
+            continue
+        out.append(str(e))
+    return out
+
+
 def enzyme_geometry(e: Enzyme) -> Tuple[str, int, int]:
     o = e.obj
     site = o.site
